@@ -460,7 +460,8 @@ def run_ok(case, d):
             nt.append((case['schema'], tuple(case['rows']), case['comp'], tuple(l)))
         if sample is None and case['rows'] == [4, 7] and case['comp'] == 'mix' and len(l) == 3 and 4 not in l:
             sample = dict(files=[dict(rows=r, compression=comp_of(case['comp'], i)) for i, r in enumerate(case['rows'])],
-                          schema=SCHEMAS[case['schema']], fields=fields, mode=mode, stream_bytes=len(got),
+                          columns=[f"{n}: {dt} ({'n' if fx is None else fx}{''.join(',%d' % t for t in tr)}{',' if not tr else ''})"
+                                   for n, dt, tr, fx in SCHEMAS[case['schema']]], fields=fields, mode=mode, stream_bytes=len(got),
                           stream_head=got[:20].hex(), matches_pipe_ref=(got == pipe_ref(filecols, fields)))
     extra = dict(labels)
     extra.update({f'evals_{mode}': len(lists), 'stream_bytes_compared': nbytes, 'field_headers_checked': nhdr,
